@@ -35,6 +35,9 @@ func specOf(id identity) reqSpec {
 	if sp.client == "10.255.0.1" && (sp.xff != "" || sp.xreal != "") {
 		affReqN++
 		sp.client = proxyPeers[(affReqN*7)%len(proxyPeers)]
+		// a front proxy keeps a few connections open and sends everybody's requests over them:
+		// the same peer ip:port carries many different clients
+		sp.port = 50000 + (affReqN*3)%4
 		// ... and through however many proxies happened to be on the way: each appends itself
 		// to X-Forwarded-For; the client is the first element whatever follows it
 		if sp.xff != "" && !strings.Contains(sp.xff, ",") {
